@@ -99,6 +99,7 @@ func runC05(c *core.Ctx) {
 			c02SpecialMIC(c, c.RNG("special-mic", k), [][2]byte{{0, 0}, {0xff, 0xff}}[k%2], "C05")
 		}
 	}
+	var prevTx *lorawan.PHYPayload
 	var prevFCtrl lorawan.FCtrl
 	havePrevFCtrl := false
 	n := c.N(3000, 400000)
@@ -189,6 +190,17 @@ func runC05(c *core.Ctx) {
 
 		// ---- sender
 		tx := d.Lib()
+		if prevTx != nil && i%5 == 2 {
+			// a device that keeps one PHYPayload / MACPayload object and fills it in again for every frame it sends
+			fresh := tx.MACPayload.(*lorawan.MACPayload)
+			old := prevTx.MACPayload.(*lorawan.MACPayload)
+			old.FHDR, old.FPort, old.FRMPayload = fresh.FHDR, fresh.FPort, fresh.FRMPayload
+			prevTx.MHDR, prevTx.MIC = tx.MHDR, lorawan.MIC{}
+			tx = *prevTx
+			c.Count("exchanges.sender-object-reused", 1)
+		}
+		keepTx := tx
+		prevTx = &keepTx
 		if havePrevFCtrl && i%4 == 1 {
 			// a network server answers by copying the FCtrl value of the frame it received last and setting
 			// the flags it wants (whatever else that value carries along must not reach the wire)
